@@ -17,6 +17,7 @@ import (
 	"github.com/mithrandie/csvq/lib/option"
 	"github.com/mithrandie/csvq/lib/parser"
 	"github.com/mithrandie/csvq/lib/value"
+	"github.com/mithrandie/csvq/lib/verifhook"
 
 	"github.com/mithrandie/go-text"
 	"github.com/mithrandie/go-text/csv"
@@ -955,7 +956,9 @@ func cacheViewFromFile(
 			return filePath, NewIOError(fileIdentifier, err.Error())
 		}
 
+		verifhook.At("load.begin", fileInfo.Path)
 		view, err = loadViewFromFile(ctx, scope.Tx.Flags, fp, fileInfo, options, fileIdentifier)
+		verifhook.At("load.end", fileInfo.Path)
 		if err != nil {
 			if _, ok := err.(Error); !ok {
 				err = NewDataParsingError(fileIdentifier, fileInfo.Path, err.Error())
@@ -1268,6 +1271,9 @@ func readRecordSet(ctx context.Context, reader RecordReader, fileSize int64) (Re
 		i := 0
 
 		for {
+			if i&15 == 0 {
+				verifhook.Worker("read", 0, 0)
+			}
 			if i&15 == 0 && ctx.Err() != nil {
 				err = ConvertContextError(ctx.Err())
 				break
@@ -1408,6 +1414,9 @@ func loadViewFromJsonLinesFile(ctx context.Context, flags *option.Flags, fp *fil
 
 		i := 0
 		for {
+			if i&15 == 0 {
+				verifhook.Worker("readjsonl", 0, 0)
+			}
 			if i&15 == 0 && ctx.Err() != nil {
 				err = ConvertContextError(ctx.Err())
 				break
